@@ -917,6 +917,225 @@ func findParamInit(pi *pkgInfo) [][]string {
 	return out
 }
 
+// findProgAttach: composite literals `{Prog: <x>.<bpfPrograms field>, Attach: ebpf.<AttachType>}`:
+// (ebpf tag of the program, name of the attach type).
+func findProgAttach(pi *pkgInfo) [][2]string {
+	tags := map[string]string{}
+	if obj := pi.pkg.Scope().Lookup("bpfPrograms"); obj != nil {
+		if st, ok := obj.Type().Underlying().(*types.Struct); ok {
+			for i := 0; i < st.NumFields(); i++ {
+				if v := reflect.StructTag(st.Tag(i)).Get("ebpf"); v != "" {
+					tags[st.Field(i).Name()] = v
+				}
+			}
+		}
+	}
+	var out [][2]string
+	for _, f := range pi.files {
+		ast.Inspect(f, func(n ast.Node) bool {
+			cl, ok := n.(*ast.CompositeLit)
+			if !ok {
+				return true
+			}
+			prog, attach := "", ""
+			for _, el := range cl.Elts {
+				kv, ok := el.(*ast.KeyValueExpr)
+				if !ok {
+					continue
+				}
+				k, ok := kv.Key.(*ast.Ident)
+				if !ok {
+					continue
+				}
+				if sel, ok := kv.Value.(*ast.SelectorExpr); ok {
+					if k.Name == "Prog" {
+						prog = tags[sel.Sel.Name]
+					}
+					if k.Name == "Attach" {
+						attach = sel.Sel.Name
+					}
+				}
+			}
+			if prog != "" && attach != "" {
+				out = append(out, [2]string{prog, attach})
+			}
+			return true
+		})
+	}
+	return out
+}
+
+// findProgUses: ebpf tags of the bpfPrograms fields that package control refers to outside the
+// declaration files (the programs the control plane really attaches).
+func findProgUses(pi *pkgInfo) []string {
+	tags := map[string]string{}
+	if obj := pi.pkg.Scope().Lookup("bpfPrograms"); obj != nil {
+		if st, ok := obj.Type().Underlying().(*types.Struct); ok {
+			for i := 0; i < st.NumFields(); i++ {
+				if v := reflect.StructTag(st.Tag(i)).Get("ebpf"); v != "" {
+					tags[st.Field(i).Name()] = v
+				}
+			}
+		}
+	}
+	seen := map[string]bool{}
+	for i, f := range pi.files {
+		if strings.HasPrefix(pi.names[i], "bpf_") {
+			continue
+		}
+		ast.Inspect(f, func(n ast.Node) bool {
+			if sel, ok := n.(*ast.SelectorExpr); ok {
+				if t, ok := tags[sel.Sel.Name]; ok {
+					seen[t] = true
+				}
+			}
+			return true
+		})
+	}
+	var out []string
+	for t := range seen {
+		out = append(out, t)
+	}
+	sort.Strings(out)
+	return out
+}
+
+// findSpecMapRefs: map names the loader looks up in the collection spec (`spec.Maps["name"]`).
+func findSpecMapRefs(pi *pkgInfo) []string {
+	seen := map[string]bool{}
+	for _, f := range pi.files {
+		ast.Inspect(f, func(n ast.Node) bool {
+			ix, ok := n.(*ast.IndexExpr)
+			if !ok {
+				return true
+			}
+			sel, ok := ix.X.(*ast.SelectorExpr)
+			if !ok || sel.Sel.Name != "Maps" {
+				return true
+			}
+			if bl, ok := ix.Index.(*ast.BasicLit); ok && bl.Kind == token.STRING {
+				if v, err := strconv.Unquote(bl.Value); err == nil {
+					seen[v] = true
+				}
+			}
+			return true
+		})
+	}
+	var out []string
+	for t := range seen {
+		out = append(out, t)
+	}
+	sort.Strings(out)
+	return out
+}
+
+// findNewMapTypes: `ebpf.MapSpec{Type: ebpf.<T>, …}` literals: (enclosing function, T).
+func findNewMapTypes(pi *pkgInfo) [][2]string {
+	var out [][2]string
+	for _, f := range pi.files {
+		for _, d := range f.Decls {
+			fd, ok := d.(*ast.FuncDecl)
+			if !ok || fd.Body == nil {
+				continue
+			}
+			ast.Inspect(fd.Body, func(n ast.Node) bool {
+				cl, ok := n.(*ast.CompositeLit)
+				if !ok {
+					return true
+				}
+				if sel, ok := cl.Type.(*ast.SelectorExpr); !ok || sel.Sel.Name != "MapSpec" {
+					return true
+				}
+				for _, el := range cl.Elts {
+					if kv, ok := el.(*ast.KeyValueExpr); ok {
+						if k, ok := kv.Key.(*ast.Ident); ok && k.Name == "Type" {
+							if sel, ok := kv.Value.(*ast.SelectorExpr); ok {
+								out = append(out, [2]string{fd.Name.Name, sel.Sel.Name})
+							}
+						}
+					}
+				}
+				return true
+			})
+		}
+	}
+	return out
+}
+
+// ------------------------------------------------------------------------------------------ arch check
+// goTypeExpr prints a plain-data type as standalone Go source (named struct types of package control
+// expanded in place), so that the real compiler can be asked for its layout on every GOARCH.
+func goTypeExpr(t types.Type) string {
+	if n, ok := t.(*types.Named); ok && n.Obj().Pkg() != nil && n.Obj().Pkg().Path() == "structs" {
+		return "structs.HostLayout"
+	}
+	switch u := t.Underlying().(type) {
+	case *types.Basic:
+		return u.Name()
+	case *types.Array:
+		return fmt.Sprintf("[%d]%s", u.Len(), goTypeExpr(u.Elem()))
+	case *types.Struct:
+		var b strings.Builder
+		b.WriteString("struct {")
+		for i := 0; i < u.NumFields(); i++ {
+			fmt.Fprintf(&b, " %s %s;", u.Field(i).Name(), goTypeExpr(u.Field(i).Type()))
+		}
+		b.WriteString(" }")
+		return b.String()
+	}
+	return "struct{}"
+}
+
+// writeArchCheck writes <dir>/archcheck: one package whose compilation for GOARCH=a succeeds iff the
+// gc compiler's Sizeof/Alignof/Offsetof of every type agree with the translator's table for a.
+func writeArchCheck(dir string, types_ []namedType, tables map[string][]Rec) error {
+	d := filepath.Join(dir, "archcheck")
+	if err := os.RemoveAll(d); err != nil {
+		return err
+	}
+	if err := os.MkdirAll(d, 0o755); err != nil {
+		return err
+	}
+	if err := os.WriteFile(filepath.Join(d, "go.mod"), []byte("module archcheck\n\ngo 1.23\n"), 0o644); err != nil {
+		return err
+	}
+	ident := func(name string) string { return "T_" + strings.NewReplacer(".", "_").Replace(name) }
+	var b strings.Builder
+	b.WriteString("// GENERATED by translators/c19_go: the plain-data types of package control, standalone.\npackage archcheck\n\nimport \"structs\"\n\nvar _ structs.HostLayout\n\n")
+	for _, nt := range types_ {
+		fmt.Fprintf(&b, "type %s %s\n", ident(nt.name), goTypeExpr(nt.t))
+	}
+	if err := os.WriteFile(filepath.Join(d, "types.go"), []byte(b.String()), 0o644); err != nil {
+		return err
+	}
+	for arch, recs := range tables {
+		b.Reset()
+		fmt.Fprintf(&b, "//go:build %s\n\n// GENERATED: compiles iff gc's layout for GOARCH=%s equals the go/types table.\npackage archcheck\n\nimport \"unsafe\"\n\n", arch, arch)
+		for _, r := range recs {
+			id := ident(r.Name)
+			fmt.Fprintf(&b, "var v_%s %s\n", id, id)
+			fmt.Fprintf(&b, "var _ = [1]struct{}{}[unsafe.Sizeof(v_%s)-%d]\n", id, r.Size)
+			fmt.Fprintf(&b, "var _ = [1]struct{}{}[unsafe.Alignof(v_%s)-%d]\n", id, r.Align)
+			for _, l := range r.Leaves {
+				if l.Blank || strings.Contains(l.Path, "_#") {
+					continue
+				}
+				parts := strings.Split(l.Path, ".")
+				var terms []string
+				for i := range parts {
+					terms = append(terms, fmt.Sprintf("unsafe.Offsetof(v_%s.%s)", id, strings.Join(parts[:i+1], ".")))
+				}
+				fmt.Fprintf(&b, "var _ = [1]struct{}{}[%s-%d]\n", strings.Join(terms, "+"), l.Off)
+				fmt.Fprintf(&b, "var _ = [1]struct{}{}[unsafe.Sizeof(v_%s.%s)-%d]\n", id, l.Path, l.Esize*l.Count)
+			}
+		}
+		if err := os.WriteFile(filepath.Join(d, "check_"+arch+".go"), []byte(b.String()), 0o644); err != nil {
+			return err
+		}
+	}
+	return nil
+}
+
 // nativeEndianTable: for every release GOARCH, which files of pkg/ebpf_internal that declare
 // `NativeEndian` are selected by their build constraints, and the byte order they choose
 // ("little"/"big"; "none"/"both" when not exactly one file is selected).
@@ -1163,6 +1382,17 @@ func main() {
 	fieldLits := findFieldLiterals(stub, stubL.fset)
 	paramInit := findParamInit(realP)
 	endian := nativeEndianTable(repo)
+	progAttach := findProgAttach(stub)
+	progUses := findProgUses(stub)
+	specMapRefs := findSpecMapRefs(stub)
+	newMapTypes := findNewMapTypes(realP)
+	archTables := map[string][]Rec{}
+	for _, c := range classes {
+		for _, a := range c.Arches {
+			archTables[a] = c.Recs
+		}
+	}
+	must(writeArchCheck(outdir, types_, archTables))
 
 	// ---- json
 	js := map[string]any{"classes": classes, "packed": packed, "consts": func() []constRow {
@@ -1172,7 +1402,8 @@ func main() {
 		}
 		return o
 	}(), "mapTags": mapTags, "progTags": progTags, "varTags": varTags, "spec": sp,
-		"mapIO": mapIOs, "listenUse": listenUse, "fieldLiterals": fieldLits, "paramInit": paramInit, "nativeEndian": endian}
+		"mapIO": mapIOs, "listenUse": listenUse, "fieldLiterals": fieldLits, "paramInit": paramInit, "nativeEndian": endian,
+		"progAttach": progAttach, "progUses": progUses, "specMapRefs": specMapRefs, "newMapTypes": newMapTypes}
 	jb, _ := json.MarshalIndent(js, "", " ")
 	must(os.WriteFile(filepath.Join(outdir, "c19_go.json"), jb, 0o644))
 
@@ -1245,7 +1476,18 @@ func main() {
 		}
 		fmt.Fprintf(&b, "(%s, %s)", leanStr(r[0]), leanStr(r[1]))
 	}
-	b.WriteString("]\n")
+	b.WriteString("]\n\n/-- `{Prog: bpf.<P>, Attach: ebpf.<A>}` literals: (program, attach type) -/\n")
+	pairs := func(ps [][2]string) string {
+		q := make([]string, len(ps))
+		for i, p := range ps {
+			q[i] = fmt.Sprintf("(%s, %s)", leanStr(p[0]), leanStr(p[1]))
+		}
+		return "[" + strings.Join(q, ", ") + "]"
+	}
+	fmt.Fprintf(&b, "def goProgAttach : List (Name × Name) := %s\n\n", pairs(progAttach))
+	fmt.Fprintf(&b, "/-- programs package control refers to outside the declaration files -/\ndef goProgUses : List Name := %s\n\n", leanStrs(progUses))
+	fmt.Fprintf(&b, "/-- map names the loader looks up as `spec.Maps[\"…\"]` -/\ndef goSpecMapRefs : List Name := %s\n\n", leanStrs(specMapRefs))
+	fmt.Fprintf(&b, "/-- `ebpf.MapSpec{Type: ebpf.<T>}` literals of the real build: (function, T) -/\ndef goNewMapTypes : List (Name × Name) := %s\n", pairs(newMapTypes))
 	b.WriteString("\nend DaeVerif.C19.Gen\n")
 	must(os.WriteFile(filepath.Join(leandir, "GoLayout.lean"), []byte(b.String()), 0o644))
 
